@@ -386,19 +386,33 @@ namespace fixedmath
   /// \brief Returns the product of two fixed_t point values.
   namespace detail
     {
-    constexpr bool check_multiply_result( fixed_t result )
-      { 
-      return (result < as_fixed( fixed_internal(0x7fffffffffff0000ll) )
-        || result > as_fixed( fixed_internal(-0x7fffffffffff0000ll)) );
+    ///\returns magnitude of \param value as unsigned, defined for every value including the most negative one
+    template<typename integral_type>
+    [[ gnu::const, gnu::always_inline ]]
+    constexpr fixed_internal_unsigned unsigned_magnitude( integral_type value ) noexcept
+      {
+      if constexpr ( is_unsigned_v<integral_type> )
+        return static_cast<fixed_internal_unsigned>( value );
+      else
+        return value < 0 ? fixed_internal_unsigned{0} - static_cast<fixed_internal_unsigned>( value )
+                         : static_cast<fixed_internal_unsigned>( value );
+      }
+
+    ///\returns true when lh * rh is outside of lowest() .. max() range and can not be calculated with fixed_internal
+    template<typename integral_type>
+    [[ gnu::const, gnu::always_inline ]]
+    constexpr bool multiply_overflows( fixed_internal lh, integral_type rh ) noexcept
+      {
+      fixed_internal_unsigned const ulh { unsigned_magnitude( lh ) };
+      fixed_internal_unsigned const urh { unsigned_magnitude( rh ) };
+      return urh != 0 && ulh > static_cast<fixed_internal_unsigned>( limits_::max().v ) / urh;
       }
     
     [[ gnu::const, gnu::always_inline ]]
     constexpr fixed_t fixed_multiplyi (fixed_t lh, fixed_t rh) noexcept
       {
-      fixed_t result { fix_carrier_t{ lh.v * rh.v }};
-
-      if( fixed_likely( check_multiply_result(result)) )
-        return fix_carrier_t{ result.v >> 16 };
+      if( fixed_likely( !multiply_overflows( lh.v, rh.v )) )
+        return fix_carrier_t{ ( lh.v * rh.v ) >> 16 };
       
       return quiet_NaN_result();
       }
@@ -428,10 +442,8 @@ namespace fixedmath
     [[ gnu::const, gnu::always_inline ]]
     constexpr fixed_t fixed_multiply_scalar (fixed_t lh, integral_type rh) noexcept
       {
-      fixed_t result { fix_carrier_t{ lh.v * promote_type_to_signed(rh) }};
-
-      if( fixed_likely( check_multiply_result(result)) )
-        return result;
+      if( fixed_likely( !multiply_overflows( lh.v, rh )) )
+        return fix_carrier_t{ lh.v * promote_type_to_signed(rh) };
       return quiet_NaN_result();
       }
     template<typename integral_type,
